@@ -251,6 +251,11 @@ fn main() {
                     cases.push((1_000_000 + k, fe::gen_fe_case(seed, k)));
                 }
             }
+            if args.iter().any(|a| a == "--qt-cells") {
+                for (k, c) in fe::qt_cell_cases(seed).into_iter().enumerate() {
+                    cases.push((3_000_000 + k as u64, c));
+                }
+            }
             if args.iter().any(|a| a == "--etrade-lines") {
                 for (k, c) in fe::etrade_line_cases().into_iter().enumerate() {
                     cases.push((2_000_000 + k as u64, c));
